@@ -112,14 +112,15 @@ def run_c11(tier, seed, replay):
     # the quick tier; hybrid laws need a graph with one spare variable set and stay on 13 variables.
     EXPENSIVE = {"EG", "AF", "AU", "EW"}
     flat = [l for l in laws if gen.depth(l["lhs"]) == 0 and gen.depth(l["rhs"]) == 0]
-    hyb = [l for l in laws if l not in flat]
+    deep = [l for l in laws if max(gen.depth(l["lhs"]), gen.depth(l["rhs"])) >= 2]      # two-variable laws: need two spare variable sets
+    hyb = [l for l in laws if l not in flat and l not in deep]
     cheap_flat = [l for l in flat if not (EXPENSIVE & (gen.ops(l["lhs"]) | gen.ops(l["rhs"])))]
     cheap_hyb = [l for l in hyb if l["id"] in ("steady_EX", "steady_AX", "pat_steady", "dom_exists", "dom_forall", "bind_jump", "exists_var",
                                                 "forall_imp", "dual_forall", "dom_bind_leaf", "dom_exists_var", "dom_exists_and", "dom_forall_imp")]
     M010, M022 = "test/model-010-13var-2in.aeon", "test/model-022-17var-5in.aeon"
     MYE, CC = "benchmark_models/pystablemotifs-models/myeloid.aeon", "benchmark_models/pystablemotifs-models/cell_cycle_2016.aeon"
     units = [(M010, 0, flat, True), (M010, 1, hyb if thorough else cheap_hyb, False), (MYE, 0, flat, True), (CC, 0, flat, True),
-             (MYE, 1, hyb, False)]
+             (MYE, 1, hyb, False), (MYE, 2, deep, False)]
     if thorough:
         units += [(M022, 0, ch, i == 0) for i, ch in enumerate(common.chunks(flat, 2))]
         for extra in ["EMT", "2176_T-LGL_Survival_Network_2008", "2161_Guard_Cell_Abscisic_Acid_Signaling", "TLGL_Large",
